@@ -698,3 +698,86 @@ Proof.
   pose proof (until_nul_length (unescape false BrDontTouch (u2f_buffer tu s))) as V.
   destruct tu; [|rewrite map_length]; lia.
 Qed.
+
+(* =========================================================================== *)
+(* 9. the documented forms                                                        *)
+(* =========================================================================== *)
+Lemma has_prefix_starts p : forall s, has_prefix p s = starts_with p s.
+Proof.
+  unfold has_prefix. induction p as [|a p IH]; intros s; [reflexivity|].
+  destruct s as [|b s]; [reflexivity|]. cbn [strip_prefix starts_with].
+  destruct (a =? b); [apply IH|reflexivity].
+Qed.
+
+Theorem unix_form f : all_1_255 f -> uri_form true f (filename_to_uri_string true f) = true.
+Proof.
+  intros Hall. unfold uri_form. rewrite !has_prefix_starts.
+  unfold filename_to_uri_string, fn_prefix. rewrite unix_absolute_model.
+  destruct f as [|c r]; [reflexivity|]. cbn [unix_absolute].
+  destruct (c =? 47) eqn:E.
+  - assert (c = 47) by lia. subst c. cbn [f2u_loop]. change (47 =? 0) with false.
+    change (is_sep true 47) with true. cbv iota. cbn [flush_seg app]. reflexivity.
+  - cbn [app]. rewrite loop_first_irrelevant by reflexivity.
+    change file_colon with s_file. rewrite no_colon_not_file; [reflexivity|apply loop_esc_or_slash].
+Qed.
+
+Lemma drive_not_unc f : win_drive_absolute f = true -> win_unc f = false.
+Proof.
+  unfold win_drive_absolute, win_unc. intros H. apply andb_prop in H. destruct H as [_ H].
+  destruct f as [|d [|c r]]; try discriminate. apply andb_prop in H. destruct H as [H _].
+  apply andb_prop in H. destruct H as [Hd _]. apply alpha_facts in Hd.
+  destruct r; rewrite ?andb_false_r; [reflexivity|]. destruct (d =? 92) eqn:E; [lia|]. rewrite !andb_false_r. reflexivity.
+Qed.
+
+Lemma relative_not_absolute f : win_relative f = true -> win_drive_absolute f = false /\ win_unc f = false.
+Proof.
+  unfold win_relative, win_drive_absolute, win_unc. intros H. apply andb_prop in H. destruct H as [_ H].
+  destruct f as [|a [|b r]]; rewrite ?andb_false_r; auto.
+  apply andb_prop in H. destruct H as [Ha Hb]. apply negb_true_iff in Ha. apply negb_true_iff in Hb.
+  rewrite Ha, Hb. rewrite !andb_false_r. cbn [andb]. destruct r; rewrite ?andb_false_r; auto.
+Qed.
+
+Theorem windows_form f : all_1_255 f -> win_absolute f = true \/ win_relative f = true ->
+  uri_form false f (filename_to_uri_string false f) = true.
+Proof.
+  intros Hall Hcls. unfold uri_form. rewrite !has_prefix_starts.
+  destruct Hcls as [Habs|Hrel].
+  - unfold win_absolute in Habs. apply orb_true_iff in Habs. destruct Habs as [Hd|Hu].
+    + rewrite Hd. unfold win_drive_absolute in Hd. apply andb_prop in Hd. destruct Hd as [_ Hd].
+      destruct f as [|d [|c rest]]; try discriminate.
+      apply andb_prop in Hd. destruct Hd as [Hd Hrest]. apply andb_prop in Hd. destruct Hd as [Hal Hc].
+      assert (c = 58) by lia. subst c. destruct (alpha_facts d Hal) as (D0 & _ & _ & _ & D92 & _).
+      assert (is_sep false d = false) as Es by (unfold is_sep; lia).
+      unfold filename_to_uri_string, fn_prefix, fn_absolute, is_windows_network. cbn [nth].
+      destruct (d =? 0) eqn:E0; [lia|]. destruct (d =? 92) eqn:E92; [lia|].
+      change (58 =? 58) with true. cbn [negb andb orb].
+      assert (exists y, f2u_loop false true true [] (d :: 58 :: rest) = d :: 58 :: y) as [y ->].
+      { cbn [f2u_loop]. rewrite E0, !Es. change (58 =? 0) with false. change (is_sep false 58) with false. cbv iota. cbn [app].
+        destruct rest as [|s r'].
+        - eexists. cbn [f2u_loop flush_seg negb andb]. reflexivity.
+        - assert (s = 92) by lia. subst s. cbn [f2u_loop]. change (92 =? 0) with false.
+          change (is_sep false 92) with true. cbv iota. cbn [flush_seg negb andb app]. eexists. reflexivity. }
+      cbn [firstn]. change (starts_with (file_colon ++ [47; 47; 47] ++ [d; 58]) (s_file3 ++ d :: 58 :: y))
+        with ((d =? d) && ((58 =? 58) && true)). rewrite N.eqb_refl. reflexivity.
+    + pose proof Hu as Hu'. unfold win_unc in Hu. apply andb_prop in Hu. destruct Hu as [_ Hu].
+      destruct f as [|a [|b [|s r]]]; try discriminate.
+      apply andb_prop in Hu. destruct Hu as [Hu Hs]. apply andb_prop in Hu. destruct Hu as [Ha Hb].
+      assert (a = 92) by lia. assert (b = 92) by lia. subst a b. apply negb_true_iff in Hs.
+      rewrite Hu'. replace (win_drive_absolute (92 :: 92 :: s :: r)) with false
+        by (unfold win_drive_absolute; change (is_alpha 92) with false; rewrite andb_false_r; reflexivity).
+      inversion Hall as [|? ? _ H1]; subst. inversion H1 as [|? ? _ H2]; subst. inversion H2 as [|? ? Hs1 H3]; subst.
+      unfold filename_to_uri_string, fn_prefix, fn_absolute, is_windows_network. cbn [nth].
+      change (92 =? 92) with true. change (92 =? 0) with false. change (92 =? 58) with false. cbn [negb andb orb].
+      cbn [f2u_loop]. change (92 =? 0) with false. change (is_sep false 92) with true. cbv iota.
+      cbn [flush_seg app].
+      destruct (s =? 0) eqn:E0; [lia|]. assert (is_sep false s = false) as Es by exact Hs. rewrite !Es. cbn [app].
+      destruct (loop_head false true r s [] ltac:(lia)) as (h & t & Eh & Hh).
+      change (s_file ++ 47 :: 47 :: ?x) with (s_file2 ++ x).
+      change (file_colon ++ [47; 47; 47]) with s_file3. change (file_colon ++ [47; 47]) with s_file2.
+      rewrite starts3_file2. rewrite Eh. cbn [starts_with]. rewrite andb_true_r.
+      change (starts_with s_file2 (s_file2 ++ h :: t)) with true. cbn [andb]. apply negb_true_iff. lia.
+  - destruct (relative_not_absolute f Hrel) as [-> ->].
+    unfold filename_to_uri_string, fn_prefix. rewrite (win_relative_not_abs f Hrel). cbn [app].
+    rewrite loop_first_irrelevant by reflexivity.
+    change file_colon with s_file. rewrite no_colon_not_file; [reflexivity|apply loop_esc_or_slash].
+Qed.
